@@ -374,3 +374,12 @@ Example C19_update_options_nonvacuous :
   snd (fst (update_w true [] (mkM "x" "T" false None) (mkW (Some ["title"%string]) false None))) = cNotFound /\
   snd (fst (update_w true [] (mkM "x" "T" false None) (mkW None true (Some ["bogus"%string])))) = cInternal.
 Proof. exact update_w_nonvacuous. Qed.
+
+(* Print Assumptions for every theorem above that did not have its own line yet *)
+Print Assumptions C19_clear_rpc_is_clear.
+Print Assumptions C19_judge_never_2.
+Print Assumptions C19_op_locked.
+Print Assumptions C19_at_most_one_normal_v0_refuted.
+Print Assumptions C19_delete_absent_v0_refuted.
+Print Assumptions C19_config_event_clocks.
+Print Assumptions C19_update_options_v0_refuted.
